@@ -322,7 +322,7 @@ impl Prop for CliFaithful {
         let out = run_simcli(&w.bytes, &case.route, &case.opts, &case.env, &[]);
         proc_metrics(&mut m, &out);
         h.u64(out.status.unwrap_or(-1) as u64);
-        h.u64(hash_bytes(&out.stdout));
+        h.u64(hash_output(&out.stdout));
         let traces: Vec<Trace> = vec![];
         m.nontrivial_key = Some(case.config_hash());
         m.add(if case.format == Format::Json { "files_json" } else { "files_gambit" }, 1);
